@@ -186,8 +186,8 @@ def judge_pair(ctx, cssutils, name, value, rng, vclass, expect=None, context='st
     import re
 
     deep = bool(re.search(r'\.\d{7,}', value))
-    if name == 'box-shadow' and re.fullmatch(r'\.\d+[a-z%]*', value):
-        feats.append('box-shadow.single-length-without-leading-zero')
+    if name in ('box-shadow', 'text-shadow') and re.fullmatch(r'\.\d+[a-z%]*', value):
+        feats.append('shadow.single-length-without-leading-zero')
     for kind in SPELLINGS:
         pname = name
         if kind.startswith('name-'):
